@@ -841,23 +841,45 @@ omit [LT N] [DecidableRel (α := N) (· < ·)]
 
 namespace Routes
 
-theorem consec_of_adjacent {α : Type} (f : α → Nat) {R : α → α → Prop} (hR : ∀ a b, R a b → f b = f a + 1) :
-    ∀ {l : List α}, Adjacent R l → consec (l.map f) = true
-  | [], _ => rfl
-  | [_], _ => rfl
-  | a :: b :: rest, h => by
-    have ih := consec_of_adjacent f hR (l := b :: rest) h.2
-    simp only [List.map_cons, consec, Bool.and_eq_true, decide_eq_true_eq] at ih ⊢
-    exact ⟨hR a b h.1, ih⟩
+theorem Adjacent_congr {α : Type} {R S : α → α → Prop} (h : ∀ a b, R a b ↔ S a b) {l : List α} :
+    Adjacent R l ↔ Adjacent S l :=
+  ⟨Adjacent.imp (fun a b => (h a b).1), Adjacent.imp (fun a b => (h a b).2)⟩
 
-theorem pairsOK_of_adjacent {α : Type} (f : α → α → Bool) {R : α → α → Prop} (hR : ∀ a b, R a b → f a b = true) :
-    ∀ {l : List α}, Adjacent R l → pairsOK f l = true
-  | [], _ => rfl
-  | [_], _ => rfl
-  | a :: b :: rest, h => by
-    have ih := pairsOK_of_adjacent f hR (l := b :: rest) h.2
-    simp only [pairsOK, Bool.and_eq_true]
-    exact ⟨hR a b h.1, ih⟩
+theorem consec_iff_adjacent {α : Type} (f : α → Nat) :
+    ∀ {l : List α}, consec (l.map f) = true ↔ Adjacent (fun a b => f b = f a + 1) l
+  | [] => by simp [consec, Adjacent]
+  | [_] => by simp [consec, Adjacent]
+  | a :: b :: rest => by
+    have ih := consec_iff_adjacent f (l := b :: rest)
+    simp only [List.map_cons] at ih
+    simp only [List.map_cons, consec, Bool.and_eq_true, decide_eq_true_eq, Adjacent, ih]
+
+theorem pairsOK_iff_adjacent {α : Type} (f : α → α → Bool) :
+    ∀ {l : List α}, pairsOK f l = true ↔ Adjacent (fun a b => f a b = true) l
+  | [] => by simp [pairsOK, Adjacent]
+  | [_] => by simp [pairsOK, Adjacent]
+  | a :: b :: rest => by
+    have ih := pairsOK_iff_adjacent f (l := b :: rest)
+    simp only [pairsOK, Bool.and_eq_true, Adjacent, ih]
+
+theorem filter_lt_length : ∀ (n k : Nat), k ≤ n → ((List.range n).filter (fun i => decide (i < k))).length = k
+  | 0, k, h => by
+    have : k = 0 := by omega
+    subst this; rfl
+  | n + 1, k, h => by
+    rw [List.range_succ, List.filter_append]
+    by_cases hk : k ≤ n
+    · rw [List.length_append, filter_lt_length n k hk]
+      have : ¬ n < k := by omega
+      simp [this]
+    · have hk' : k = n + 1 := by omega
+      subst hk'
+      have e1 : (List.range n).filter (fun i => decide (i < n + 1)) = List.range n := by
+        apply List.filter_eq_self.2
+        intro a ha
+        have := List.mem_range.1 ha
+        simp; omega
+      rw [e1]; simp
 
 /-- a property of the first element that neighbours pass on holds for every element -/
 theorem forall_of_adjacent {α : Type} {R : α → α → Prop} {P : α → Prop} (hR : ∀ a b, R a b → P a → P b) :
@@ -979,6 +1001,30 @@ theorem stays_all_good {p : Proc N} {prog : List (Instr N)} {i : Nat} (stalled :
   obtain ⟨x, s, rest, hhead, hst, hW, hrest⟩ := stays_of_chain stalled T hne hch hlast
   rw [hst, List.all_cons, Bool.and_eq_true]
   exact ⟨stayOK_of_weakStay hW (hfirst x hhead), hrest⟩
+
+/-- an instruction appears in the diagram iff it has entered -/
+theorem Routed.issued_iff {c : Ctx N} {E : Nat → Nat} (h : Routed c E) (i : Nat) :
+    c.issued i = true ↔ i < E c.T := by
+  unfold Ctx.issued
+  by_cases hi : i < E c.T
+  · have := (h.routeOf hi).ne
+    cases hp : c.positions i with
+    | nil => exact absurd hp this
+    | cons x l => simp [hi]
+  · rw [h.positions_eq_nil (by omega)]
+    simp [hi]
+
+/-- the number of instructions in the diagram is the final value of the entered counter -/
+theorem Routed.enteredCount_eq {c : Ctx N} {E : Nat → Nat} (h : Routed c E) : c.enteredCount = E c.T := by
+  unfold Ctx.enteredCount
+  have : (List.range c.n).filter c.issued = (List.range c.n).filter (fun i => decide (i < E c.T)) := by
+    apply List.filter_congr
+    intro i _
+    have := h.issued_iff i
+    cases hb : c.issued i <;> simp_all
+  rw [this]
+  exact filter_lt_length c.n (E c.T) h.le_n
+
 
 end checker
 
